@@ -82,6 +82,14 @@ class FFTWrapper:
     def call(self, x):
         if x.shape != self._inshape:
             raise ValueError(f"Expected input of shape {self._inshape}, got {x.shape}")
+        # The C side reads prod(shape) elements of the plan's input type in
+        # C order starting at x.ctypes.data, so x must have exactly that layout.
+        if self._r2c and self._fwd:
+            if np.iscomplexobj(x):
+                raise ValueError("Expected real input for forward r2c transform")
+            x = np.ascontiguousarray(x, dtype=np.float64)
+        else:
+            x = np.ascontiguousarray(x, dtype=np.complex128)
         dtype = np.float64 if (self._r2c and not self._fwd) else np.complex128
         out = np.empty(self._outshape, dtype=dtype)
         libfft.write_fft_input(self._ptr, x.ctypes.data_as(ctypes.c_void_p))
